@@ -329,6 +329,23 @@ def corpus_cases():
                     tk = l.split(); out.append((tk[0], int(tk[1]) if tk[0] in ('STEP', 'TAKE') else -1, l))
     return out
 
+def replay(ctx, path):
+    """re-run one recorded case (replay JSON with a 'case' line, or a text file of case lines) on implementation and model"""
+    try:
+        d = json.load(open(path)); lines = [d.get('case') or d.get('first_disagreement_case')]
+    except ValueError:
+        lines = [l.strip() for l in open(path) if l.strip() and not l.startswith('#')]
+    lines = [l for l in lines if l]
+    if not lines:
+        print('no case line in', path); return
+    ctx.build_repo()
+    tools = build_tools(ctx)
+    if tools is None:
+        print('tools do not build'); return
+    a, _, _ = run_lines(tools[1], lines); b, _, _ = run_lines(tools[0], lines)
+    for l, x, y in zip(lines, a, b):
+        print('CASE  ' + l); print('IMPL  ' + x); print('MODEL ' + y)
+
 # ------------------------------------------------------------------------------------------------ main
 def run(ctx):
     ctx.build_repo()
